@@ -25,6 +25,7 @@ structure SideState where
   -- observers (specification side), fed only with op arguments and implementation outputs
   resObs : List (Bytes × (List Bytes × Nat)) := []
   resObsPort : Bytes := []
+  routeSeen : List (String × List String) := []  -- C18: host ↦ first answer for the current table
   pinObs : List (Bytes × Bytes × Nat) := []     -- key, backend, expiry (never purged lazily)
   pinObsT : Nat := 0
   pinObsNow : Nat := 0
@@ -124,7 +125,14 @@ def specSide (s : SideState) (stream op : String) (a impl : List String) : SideS
     | some t =>
       let (o, errs) := s.rrObs.dispatch t
       ({ s with rrObs := o }, errs.map ("C05 " ++ ·))
+  | "route", "new", _ => ({ s with routeSeen := [] }, [])
+  | "route", "add", _ => ({ s with routeSeen := [] }, [])
   | "route", "find", [h] =>
+    -- the answer is the same every time the same host is looked up (whatever was looked up in between)
+    let (s, stab) : SideState × List String := match s.routeSeen.find? (fun e => e.1 == h) with
+      | some (_, prev) => (s, if prev == impl then [] else ["C18 answer-changed-between-lookups-of-the-same-host"])
+      | none => ({ s with routeSeen := (h, impl) :: s.routeSeen }, [])
+    let (s2, errs) : SideState × List String := (fun (s : SideState) =>
     let r : Option (Option Side.SR.Item) := match impl with
       | ["none"] => some none
       | [p, host, port] =>
@@ -142,7 +150,8 @@ def specSide (s : SideState) (stream op : String) (a impl : List String) : SideS
                          (fun it => (it.protocol, it.host, it.port))
         match r with
         | none => (s, if Spec.routeAllowed s.table (unhex h) none then [] else ["C18 no-route-but-one-applies"])
-        | some it => (s, if allowed.contains (it.protocol, it.host, it.port) then [] else ["C18 precedence"])
+        | some it => (s, if allowed.contains (it.protocol, it.host, it.port) then [] else ["C18 precedence"])) s
+    (s2, stab ++ errs)
   | "res", "new", [_, port] => ({ s with resObs := [], resObsPort := port.toUTF8.toList }, [])
   | "res", "host", [h] => ({ s with resObs := s.resObs ++ [(unhex h, ([], 0))] }, [])
   | "res", "close", _ => (s, [])
